@@ -15,6 +15,9 @@ mod wire;
 
 use framework::{Scenario, Tier};
 
+#[global_allocator]
+static ALLOC: scenarios::c02_decode::CountingAlloc = scenarios::c02_decode::CountingAlloc;
+
 fn find(id: &str) -> Option<Box<dyn Scenario>> {
     scenarios::all().into_iter().find(|s| s.id() == id)
 }
